@@ -36,6 +36,7 @@ type ExprEnv struct {
 	assuming bool                    // the formula will be assumed (callee postcondition at a call site), not proved
 	oldVars map[string]tval           // values of loop variables at the loop head (iter clauses)
 	visited func(k string) string     // the visited-set of the enclosing map range at this point
+	at      *ssa.BasicBlock            // the block of the return a postcondition is evaluated at
 }
 
 func (x *ExprEnv) errf(f string, a ...interface{}) tval {
@@ -194,6 +195,15 @@ func (x *ExprEnv) ident(name string) tval {
 	}
 	if p, ok := x.e.spec.pkgByName[name]; ok {
 		return tval{pkg: p}
+	}
+	// a ghost the contract declares but whose call site no longer exists: the clause cannot be stated
+	// (this is not "a local that does not exist on this path")
+	if x.fr != nil && x.fr.contract != nil {
+		for _, g := range x.fr.contract.Ghosts {
+			if g.Name == name {
+				return x.errf("ghost %s is not bound (its call site is gone): unknown identifier in a ghost", name)
+			}
+		}
 	}
 	return x.errf("unknown identifier %s", name)
 }
@@ -443,6 +453,26 @@ func (x *ExprEnv) call(n *ast.CallExpr) tval {
 				return tval{t: fmt.Sprintf("(or (= %s 0) (>= %s %s))", a.t, a.t, x.a0), typ: bt}
 			}
 			return x.errf("freshOrNil of %s", a.typ)
+		case "pastloop":
+			// pastloop(N): this return lies behind the head of loop N (the loop was reached on every path to it)
+			if len(n.Args) != 1 || x.at == nil {
+				return x.errf("pastloop(N) is only meaningful in ensures clauses")
+			}
+			lit, ok := n.Args[0].(*ast.BasicLit)
+			if !ok {
+				return x.errf("pastloop(N): N must be a literal")
+			}
+			var ord int
+			fmt.Sscanf(lit.Value, "%d", &ord)
+			for h, li := range x.fr.loops {
+				if li.ord == ord {
+					if h.Dominates(x.at) {
+						return tval{t: "true", typ: bt}
+					}
+					return tval{t: "false", typ: bt}
+				}
+			}
+			return x.errf("unknown identifier: loop %d does not exist", ord)
 		case "endsWith":
 			// endsWith(s, t): s is some string followed by t (strings are uninterpreted: this is decided by
 			// matching the concatenation that built s, which is exactly what it is meant to pin down)
